@@ -4,6 +4,7 @@
 package main
 
 import (
+	"sort"
 	"verifharness/smtpd"
 	"verifharness/vh"
 )
@@ -30,6 +31,49 @@ func gen(g *vh.Gen) {
 		}
 		for k := 0; k <= len(stream); k++ {
 			g.Emit("smtp", append(c.Fields(), vh.H(stream[:k]))...)
+		}
+	}
+	// connections that pause, time out or break: 1-3 pauses longer than the idle timeout at random offsets
+	// (line boundaries, inside a line, inside a DATA block), ended by EOF, by silence or by a read error
+	for i := 0; i < g.N(150, 6000); i++ {
+		c, pool := smtpd.GenCfg(g, oc)
+		if g.Chance(0.7) {
+			c.DA, c.DS, c.Rej, c.Dis = true, true, "", ""
+		}
+		stream := smtpd.GenDialogue(g, c, pool, oc)
+		var cuts []int
+		for n := g.Intn(4); n > 0 && len(stream) > 0; n-- {
+			k := g.Intn(len(stream) + 1)
+			if g.Chance(0.4) { // move to the next line boundary
+				for k < len(stream) && (k == 0 || stream[k-1] != '\n') {
+					k++
+				}
+			}
+			cuts = append(cuts, k)
+		}
+		sort.Ints(cuts)
+		var chunks [][]byte
+		prev := 0
+		for _, k := range cuts {
+			chunks = append(chunks, stream[prev:k])
+			prev = k
+		}
+		chunks = append(chunks, stream[prev:])
+		if g.Chance(0.3) { // the client gives up somewhere
+			chunks[len(chunks)-1] = chunks[len(chunks)-1][:g.Intn(len(chunks[len(chunks)-1])+1)]
+		}
+		g.Emit("smtp", append(c.Fields(), smtpd.NetField(chunks, g.Pick("eof", "idle", "idle", "err")))...)
+	}
+	// one pause at every byte offset of valid dialogues
+	for i := 0; i < g.N(3, 150); i++ {
+		c, pool := smtpd.GenCfg(g, oc)
+		c.DA, c.DS, c.Rej, c.Dis = true, true, "", ""
+		stream := smtpd.GenDialogue(g, c, pool, oc)
+		if len(stream) > 400 {
+			stream = stream[:400]
+		}
+		for k := 0; k <= len(stream); k++ {
+			g.Emit("smtp", append(c.Fields(), smtpd.NetField([][]byte{stream[:k], stream[k:]}, "eof"))...)
 		}
 	}
 }
